@@ -216,7 +216,8 @@ class Sector(EconomicObject):
         # Remove the +/- from the term
         term = term_obj.Term
         if term in self.GetVariables():
-            rhs = self.EquationBlock[term].RHS()
+            # (Blanks do not count: the alias pass of the Model re-renders '0.0' as '0.0 '.)
+            rhs = self.EquationBlock[term].RHS().strip()
             if rhs == '' or rhs == '0.0':
                 self.SetEquationRightHandSide(term, eqn)
         else:
